@@ -114,6 +114,7 @@ def run(F, rep):
     pred_rules(F, rep)
     empty_rules(F, rep)
     roll_rules(F, rep)
+    nrun_rules(F, rep)
 
 
 def roll_rules(F, rep, pid="C09"):
@@ -165,6 +166,56 @@ def roll_rules(F, rep, pid="C09"):
                    "an iteration can reach the next one from %s without assigning `%s`: the previous window's code is rolled forward although that window was skipped" % (site_of(f, f.blocks[bad]["term"]), nm),
                    site=site_of(f, t), key="%s | %s | rolling code refreshed" % (R, f.key))
     rep.floor(R, n, 2, "scanning loops that roll the key code forward (encode, cost vector, estimate)")
+
+
+def nrun_rules(F, rep, pid="C09"):
+    """C09-NRUN: an N-run record stands for `len` copies of the N code and the decoder writes exactly that.  The function
+    that measures a run may therefore test the sequence symbols only for (in)equality with the N code: any other test on a
+    symbol (`c > 3`, a range, another constant) lets symbols that are not N be absorbed into the run and decoded as N."""
+    R = pid + "-NRUN"
+    f = F.funcs.get(LZ + "get_nrun_len")
+    ncode = F.consts.get("ragc_core::lz_diff::N_CODE", {}).get("int")
+    if not rep.floor(R, (1 if f else 0) + (1 if ncode is not None else 0), 2, "get_nrun_len and N_CODE"):
+        return
+    bodies = [f] + list(F.closures_of(f.key))
+    ntests, bad = 0, []
+    for b in bodies:
+        ex = Exprs(b)
+        exprs_ = []
+        for blk in b.blocks:
+            t = blk["term"]
+            if t["k"] == "switch" and not blk["cleanup"]:
+                exprs_.append(strip_tags(ex.operand(t["discr"])))
+            if b.kind == "closure":
+                for s_ in blk["stmts"]:
+                    if s_["k"] == "assign" and s_["pl"]["l"] == 0 and not s_["pl"]["p"]:
+                        exprs_.append(strip_tags(ex.rvalue(s_["rv"])))      # a predicate closure returns its test
+        for ce in exprs_:
+            for x in walk(ce):
+                if not (isinstance(x, tuple) and x[0] == "bin" and x[1] in ("Eq", "Ne", "Lt", "Le", "Gt", "Ge")):
+                    continue
+                # a comparison on a symbol: one side is a u8 constant
+                consts = [o for o in (x[2], x[3]) if isinstance(o, tuple) and o[0] == "const" and isinstance(o[1], int)]
+                other = [o for o in (x[2], x[3]) if not (isinstance(o, tuple) and o[0] == "const")]
+                if len(consts) != 1 or not other:
+                    continue
+                if not _is_symbol(b, ex, other[0]):
+                    continue
+                ntests += 1
+                if not (x[1] in ("Eq", "Ne") and consts[0][1] == ncode):
+                    bad.append("%s in %s" % (fmt(x), b.key.rsplit("::", 2)[-1] if b.kind == "closure" else b.key.rsplit("::", 1)[-1]))
+    rep.ob(R, "get_nrun_len tests sequence symbols only for equality with the N code (%d)" % ncode, not bad and ntests >= 1,
+           detail="%d symbol tests" % ntests if not bad else "other tests on symbols: %s: a symbol passing them is counted into the run and decoded as N" % bad[:3],
+           site="%s:%d" % (f.file, f.line_lo), key="%s | get_nrun_len | symbol tests" % R)
+
+
+def _is_symbol(f, ex, e):
+    """is this operand a byte of the sequence (a u8 read through an index / an iterator item)?"""
+    s = fmt(e)
+    if re.search(r"index\(|\[|next\(|\(\*|deref|param|^arg\d+$", s) is None:
+        return False
+    # type check through the locals it mentions is not available for sub-expressions: rely on shape + the callers' types
+    return ("usize" not in s) and ("len(" not in s)
 
 
 def back_rules(F, rep, pid="C09"):
